@@ -2,9 +2,12 @@
    ONLY property theorems: statement, `exact <lemma>`, Print Assumptions.
    Model: sys/Proto.v (see props/C04.v).
 
-   PROVED (the ingredients): worker_steps_commute; placement_irrelevant_local (+ the stamp-only
-   difference for a slice that sends); single_sender_mailbox_order (from C04's per_link_fifo);
-   message conservation.
+   PROVED (the ingredients): worker_steps_commute; worker_env_diamond (phase 3: a Worker::step that
+   handles only commands already queued and an Environment::step that collects from that worker
+   only events already queued commute — W;E and E;W end in the same state; together with
+   worker_steps_commute every pair of independent scheduler actions commutes);
+   placement_irrelevant_local (+ the stamp-only difference for a slice that sends);
+   single_sender_mailbox_order (from C04's per_link_fifo); message conservation.
    The quantum is not a parameter of the model at all: a time slice is an oracle input, so
    `quantum_additive` (splitting a slice in two) is a statement about the VM (vm/Vm.v), not about
    the protocol.
@@ -16,7 +19,7 @@
    (Kahn-network determinism of M-Sys); `schedule_independence_partial` is the conjunction of the
    theorems below, and the schedule exploration of vplib/props/c03.py tests the global statement on
    the real code. *)
-From Quiver Require Import sys.Proto sys.ProtoCommute sys.ProtoMsg sys.ProtoFifo sys.ProtoFail.
+From Quiver Require Import sys.Proto sys.ProtoCommute sys.ProtoMsg sys.ProtoFifo sys.ProtoFail sys.ProtoDiamond.
 
 Theorem C03_worker_steps_commute : forall s i j ki kj oi oj s1 s2,
   i <> j ->
@@ -73,3 +76,20 @@ Theorem C03_snapshot_overtaken_refuted :
     In (EResults 0 [(1, Some (ROk 11)); (2, None)]) (n_evt nd).
 Proof. exact snapshot_overtaken_by_local_notification. Qed.
 Print Assumptions C03_snapshot_overtaken_refuted.
+
+(* ---- phase 3: the diamond for independent worker / environment actions *)
+Theorem C03_worker_env_diamond : forall s i n o ks nd m s1 s2,
+  nth_error (s_nodes s) i = Some nd ->
+  n <= length (n_cmd nd) ->
+  nth_error ks i = Some m -> m <= length (n_evt nd) ->
+  sys_step s (W i (Some n) o) = Good s1 -> sys_step s (E ks) = Good s2 ->
+  exists s', sys_step s1 (E ks) = Good s' /\ sys_step s2 (W i (Some n) o) = Good s'.
+Proof. exact worker_env_diamond. Qed.
+Print Assumptions C03_worker_env_diamond.
+
+Theorem C03_diamond_nonvacuous : exists s',
+  run (init 2) [X (XStart false); W 0 (Some 1) (orc (Some 0) (d_act_ ASpawn)); E [0]] = Good s' /\
+  run (init 2) [X (XStart false); E [0]; W 0 (Some 1) (orc (Some 0) (d_act_ ASpawn))] = Good s' /\
+  total (fun nd => length (n_evt nd)) (s_nodes s') = 1.
+Proof. exact diamond_instance. Qed.
+Print Assumptions C03_diamond_nonvacuous.
